@@ -82,13 +82,13 @@ def generate(ctx):
     return cases
 
 
-def build(case, variant=0):
+def build(case, variant=0, frozen_metadata=None):
     from swh.model import model
 
     extra = tuple((unhx(k), unhx(v)) for k, v in case["extra"])
     metadata = None
     if case["via_meta"]:
-        metadata = {"extra_headers": [[k, v] for k, v in extra], "other": "x"}
+        metadata = frozen_metadata if frozen_metadata is not None else {"extra_headers": [[k, v] for k, v in extra], "other": "x"}
         extra_attr = ()
     else:
         extra_attr = extra
@@ -200,6 +200,16 @@ def check_cases(ctx, cases):
         rev = build(case)
         man = git_objects.revision_git_object(rev)
         gitfmt.dict_form_agrees(ctx, case, git_objects.revision_git_object, rev, man)
+        if case["via_meta"]:
+            # the legacy metadata handed over as ONE already-frozen mapping to several revisions
+            from swh.model.collections import ImmutableDict
+
+            fm = ImmutableDict({"extra_headers": [[unhx(k), unhx(v)] for k, v in case["extra"]], "other": "x"})
+            for nth in (1, 2, 3):
+                rv = build(case, frozen_metadata=fm if nth != 3 else ImmutableDict(fm))
+                if rv.id != rev.id or rv.extra_headers != rev.extra_headers:
+                    ctx.fail(case, f"revision no. {nth} built from the same frozen legacy metadata has other extra headers / another id than the first", "legacy-headers-differ:shared-metadata", {"nth": nth})
+                    break
         impls.append((man, rev.id))
         ctx.case(case, nontrivial=bool(case["author"] or case["committer"] or case["parents"] or case["extra"]))
         ctx.count("presence=%s%s%s%s" % ("A" if case["author"] is not None else "-", "d" if case["date"] else "-", "C" if case["committer"] is not None else "-", "d" if case["committer_date"] else "-"))
